@@ -52,10 +52,14 @@ static Verdict run_hist(const Case &c) {
                 if (blocks != base_blocks || bytes != base_bytes)
                     v.fail(fmt("frame %llu (rep %lld step %zu): after a topology Reset %zu blocks / %zu bytes are live, a fresh interface has %zu / %zu", (unsigned long long)frames, (long long)r, i, blocks, bytes, base_blocks, base_bytes));
             } else {
-                size_t bound_blocks = base_blocks + obs.size() + (icon_may_be_cached ? 1 : 0);
-                size_t bound_bytes = base_bytes + obs.size() * 64 + (icon_may_be_cached ? max_icon + 16 : 0);
+                // The statement allows "bounded retained state" without prescribing it, so a small constant number of extra blocks (a kept
+                // transmit buffer, a cache) is tolerated here; what must not happen is growth with the history - a per-request leak exceeds the
+                // slack after a few requests - and after a topology Reset the count must be exactly the per-interface record (checked above).
+                const size_t SLACK_BLOCKS = 3;
+                size_t bound_blocks = base_blocks + obs.size() + (icon_may_be_cached ? 1 : 0) + SLACK_BLOCKS;
+                size_t bound_bytes = base_bytes + obs.size() * 64 + (icon_may_be_cached ? max_icon + 16 : 0) + SLACK_BLOCKS * (h.mtu + 64);
                 if (blocks > bound_blocks)
-                    v.fail(fmt("frame %llu (rep %lld step %zu, opcode %u): %zu blocks live after the handler returned; retained state allows at most %zu (record + %zu observations + %d icon)", (unsigned long long)frames, (long long)r, i, hd.op, blocks, bound_blocks, obs.size(), icon_may_be_cached ? 1 : 0));
+                    v.fail(fmt("frame %llu (rep %lld step %zu, opcode %u): %zu blocks live after the handler returned; retained state allows at most %zu (record + %zu observations + %d icon + 3 blocks of slack)", (unsigned long long)frames, (long long)r, i, hd.op, blocks, bound_blocks, obs.size(), icon_may_be_cached ? 1 : 0));
                 else if (bytes > bound_bytes)
                     v.fail(fmt("frame %llu (rep %lld step %zu, opcode %u): %zu bytes live, bound %zu", (unsigned long long)frames, (long long)r, i, hd.op, bytes, bound_bytes));
             }
@@ -127,6 +131,7 @@ static Verdict run(const Case &c) { return c.c(0) == 1 ? run_flood(c) : run_hist
 int main(int argc, char **argv) {
     Args a = parse_args(argc, argv);
     if (!a.replay.empty()) return replay_case(a, run);
+    zygote_start(run);   // before any code under test runs in this process
     Current::install(a.failing);
     Evidence ev;
     ev.rule = "(1) generated histories with every request type, noise/mutated frames, failing transmits, repeated icon requests, platform icon swaps and Resets at random points, repeated cyclically to 10^3 (quick) / 10^5 (thorough) frames; "
